@@ -1410,7 +1410,31 @@ class _AddUfunc:
         if not isinstance(arr, SArr):
             raise TypeError('add.at target must be an array')
         if isinstance(idx, tuple):
-            raise NotModelled('add.at with tuple index')
+            # one index array per axis (N-d target): positions are visited in order, repeated positions accumulate
+            if len(idx) != arr.a.ndim:
+                raise NotModelled('add.at with a partial tuple index')
+            ias = [asarray(i) for i in idx]
+            for ia_ in ias:
+                if ia_.dt.kind in 'fb':
+                    raise IndexError('arrays used as indices must be of integer (or boolean) type')
+            bshape = rnp.broadcast_shapes(*[ia_.a.shape for ia_ in ias])
+            iobj = [rnp.broadcast_to(_obj(ia_), bshape) for ia_ in ias]
+            dims = arr.a.shape
+            cur = (arr.a if arr.a.dtype == object else arr.a.astype(object)).copy()
+            vals = rnp.broadcast_to(_obj(val) if _is_arraylike(val) else rnp.asarray(_norm_elem(val), dtype=object), bshape)
+            for pos in rnp.ndindex(*bshape):
+                ii = [_norm_elem(io[pos]) for io in iobj]
+                v = _norm_elem(vals[pos])
+                conds = _index_conds(ii, dims)
+                for cell in rnp.ndindex(*dims):
+                    c = z3.simplify(z3.And([conds[d][cell[d]] for d in range(len(dims))]))
+                    if z3.is_false(c):
+                        continue
+                    cur[cell] = (cur[cell] + v) if z3.is_true(c) else sel(c, cur[cell] + v, cur[cell])
+            if arr.dt.kind == 'f':
+                cur = _frompy(lambda e: _fl(e) if is_sym(e) else builtins.float(e), 1, 1)(cur) if cur.size else cur
+            arr._set_all(cur)
+            return
         ia = asarray(idx)
         if ia.dt.kind == 'f' or ia.dt.kind == 'b':
             raise IndexError('arrays used as indices must be of integer (or boolean) type')
